@@ -148,12 +148,89 @@ def _hdr(cfg, n):
 _EPS = r'10 \* np\.finfo\(float\)\.eps'
 
 
+def _local_defs(fn):
+    d = {}
+    for x in walk_no_nested(fn):
+        if isinstance(x, ast.Assign) and len(x.targets) == 1 and isinstance(x.targets[0], ast.Name):
+            d.setdefault(x.targets[0].id, []).append(x.value)
+    return {k: v[0] for k, v in d.items() if len(v) == 1 or all(ast.unparse(a) == ast.unparse(v[0]) for a in v)}
+
+
+def _depends_on(node, name, defs, depth=0):
+    for n in ast.walk(node):
+        if isinstance(n, ast.Name):
+            if n.id == name:
+                return True
+            if depth < 4 and n.id in defs and _depends_on(defs[n.id], name, defs, depth + 1):
+                return True
+    return False
+
+
 def _activity_tests(fn):
+    """comparisons of a time against (something derived from) the final time"""
+    tend = fn.args.args[3].arg
+    defs = _local_defs(fn)
     out = []
     for x in walk_no_nested(fn):
-        if isinstance(x, ast.Compare) and 'finfo' in ast.unparse(x):
-            out.append(x)
+        if isinstance(x, ast.Compare) and len(x.ops) == 1 and isinstance(x.ops[0], (ast.Lt, ast.GtE, ast.LtE, ast.Gt)):
+            sides = [x.left, x.comparators[0]]
+            if 'finfo' in ast.unparse(x) or (any(_depends_on(s_, tend, defs) for s_ in sides) and any('time' in ast.unparse(s_) for s_ in sides) and 'dt' not in ast.unparse(x)):
+                out.append(x)
     return out
+
+
+def _threshold_verdict(expr, tend, defs):
+    """finite sign-case analysis of a non-canonical activity threshold thr(Tend): it must never lie beyond Tend.
+    Returns (ok, text).  The expression is read from the AST and evaluated symbolically with sympy (no pySDC code runs)."""
+    import sympy
+
+    e = sympy.Symbol('eps', positive=True)
+
+    class Inl(ast.NodeTransformer):
+        def visit_Name(self, n):
+            if n.id in defs and n.id != tend:
+                return self.visit(ast.parse(ast.unparse(defs[n.id]), mode='eval').body)
+            return n
+
+    expr = Inl().visit(ast.parse(ast.unparse(expr), mode='eval').body)
+
+    def conv(n, T):
+        if isinstance(n, ast.Constant) and isinstance(n.value, (int, float)):
+            return sympy.nsimplify(n.value)
+        if isinstance(n, ast.Name) and n.id == tend:
+            return T
+        if ast.unparse(n) == 'np.finfo(float).eps':
+            return e
+        if isinstance(n, ast.BinOp) and isinstance(n.op, (ast.Add, ast.Sub, ast.Mult, ast.Div)):
+            a, b = conv(n.left, T), conv(n.right, T)
+            return {ast.Add: a + b, ast.Sub: a - b, ast.Mult: a * b, ast.Div: a / b}[type(n.op)]
+        if isinstance(n, ast.UnaryOp) and isinstance(n.op, ast.USub):
+            return -conv(n.operand, T)
+        if isinstance(n, ast.Call) and ast.unparse(n.func) in ('abs', 'np.abs') and len(n.args) == 1:
+            return sympy.Abs(conv(n.args[0], T))
+        raise AnalysisError(f'activity threshold `{ast.unparse(expr)}`: `{ast.unparse(n)}` is outside the vocabulary of the threshold analysis')
+
+    def cond_holds(test, val):
+        c = ast.unparse(test).replace(tend, f'({val})').replace('np.finfo(float).eps', '2.2e-16')
+        try:
+            return bool(eval(c, {'abs': abs, '__builtins__': {}}))  # a comparison of numbers only
+        except Exception:
+            raise AnalysisError(f'activity threshold: cannot evaluate the arm condition `{ast.unparse(test)}`')
+
+    arms = [(None, expr)]
+    if isinstance(expr, ast.IfExp):
+        arms = [(('pos', expr.test), expr.body), (('neg', expr.test), expr.orelse)]
+    bad = []
+    for cond, body in arms:
+        for sign, T, samples in (('Tend > 0', sympy.Symbol('T', positive=True), (0.5, 2.0, 1e6)), ('Tend < 0', sympy.Symbol('T', negative=True), (-0.5, -2.0, -1e6))):
+            if cond is not None:
+                feas = [v for v in samples if cond_holds(cond[1], v) == (cond[0] == 'pos')]
+                if not feas:
+                    continue
+            d = sympy.simplify(conv(body, T) - T)
+            if not d.is_negative:
+                bad.append(f'{ast.unparse(body)} for {sign}: threshold - Tend = {d}, not < 0')
+    return (not bad, '; '.join(bad) if bad else 'never beyond Tend in every sign case')
 
 
 @rule('C06', 'C06.R3', 'activity predicate agrees at every site: t < Tend - 10*eps; nothing to do raises; loop runs while any step is active', floor=12)
@@ -169,6 +246,11 @@ def r3(ctx, R):
             s = bool_nf(x)
             n_sites += 1
             ok = re.fullmatch(rf'.+ < {tend} - {_EPS}', s) is not None or re.fullmatch(rf'{tend} - {_EPS} <= .+', s) is not None
+            if not ok and isinstance(x.ops[0], (ast.Lt, ast.GtE)) and not _depends_on(x.left, tend, _local_defs(fn)):
+                # another threshold than Tend - 10*eps: accepted only if it can never lie beyond Tend (sign-case analysis)
+                v, txt = _threshold_verdict(x.comparators[0], tend, _local_defs(fn))
+                R.check(v, f'{cn}.run :: activity test `{ast.unparse(x)}` (non-canonical threshold)', w, 'a threshold strictly below Tend for every real Tend (a step starting at Tend, up to rounding, is never active)', txt)
+                continue
             R.check(ok, f'{cn}.run :: activity test `{ast.unparse(x)}`', w, f'<time> < {tend} - 10*eps (or its exact negation)', s)
         cfg = FuncCFG(fn)
         rs = [(n, s) for n, s in cfg.stmt_of.items() if isinstance(s, ast.Raise) and 'ControllerError' in ast.unparse(s)]
@@ -217,6 +299,9 @@ def r5(ctx, R):
         for x in _activity_tests(fn):
             src = ast.unparse(x)
             thr = ast.unparse(x.comparators[0])
+            defs = _local_defs(fn)
+            for _ in range(3):  # resolve local names of the threshold
+                thr = re.sub(r'\b([A-Za-z_]\w*)\b', lambda m: f'({ast.unparse(defs[m.group(1)])})' if m.group(1) in defs and m.group(1) != fn.args.args[3].arg else m.group(1), thr)
             scaled = re.search(r'abs\(|max\(|np\.spacing|nextafter|isclose', thr) is not None
             i = k.get(src, 0)
             k[src] = i + 1
